@@ -80,3 +80,11 @@ Require Copia.Proofs.TieSafeJoin.
 Theorem C12_model_is_translation_of_source : TieSafeJoin.safe_join_model_is_translation.
 Proof. exact TieSafeJoin.safe_join_model_is_translation_holds. Qed.
 Print Assumptions C12_model_is_translation_of_source.
+
+(** The prologue test of the modelled read loop is the translation of wire.rs `read_magic` as it is now (exactly six
+    bytes, all six compared with MAGIC), and a session is served only when it answers true
+    (Gen/WireMagicGen.v, Proofs/TieWireMagic.v). *)
+Require Copia.Proofs.TieWireMagic.
+Theorem C12_prologue_is_translation_of_source : TieWireMagic.wire_magic_is_translation.
+Proof. exact TieWireMagic.wire_magic_is_translation_holds. Qed.
+Print Assumptions C12_prologue_is_translation_of_source.
